@@ -69,6 +69,9 @@ func checkC17(c *Ctx) {
 	checkFallbackOnlyForMainRune(c, p, "C17-R12")
 	checkAcsMapUnconditional(c, p, "C17-R13")
 	checkAcsMapOwnedByScreen(c, p, "C17-R14")
+	c.Rule("C17-R15", "the terminal's own glyph for every rune its acsc names: the entry made for a pair does not depend on the value of the glyph byte (PC-console descriptions use control bytes as glyphs, shown under their alternate charset)")
+	c.Expect("C17-R15", 1)
+	checkAcsGlyphsTakenAsGiven(c, p, "C17-R15")
 	enc := p.Fn("tcell:(*tScreen).encodeRune")
 	can := p.Fn("tcell:(*tScreen).CanDisplay")
 	if enc == nil || can == nil {
